@@ -12,6 +12,7 @@
 ###############################################################################
 import logging
 import operator
+import queue
 from multiprocessing import Process, Queue
 from typing import Any, Callable, Dict, Iterator, List, Optional
 
@@ -88,14 +89,17 @@ class MultiprocessingSolver(Solver):
 
     def solve(self) -> Iterator[NDArray]:
         solutions: Queue = Queue()
+        processes = []
         for proc_idx, solver in enumerate(self.solvers):
-            Process(target=solver.solve_and_queue, args=(proc_idx, solutions)).start()
-        nb = len(self.solvers)
-        while nb > 0:
-            proc_idx, solution, statistics = solutions.get()
+            process = Process(target=solver.solve_and_queue, args=(proc_idx, solutions))
+            process.start()
+            processes.append(process)
+        running = set(range(len(self.solvers)))
+        while len(running) > 0:
+            proc_idx, solution, statistics = get_message(solutions, processes, running)
             self.statistics[proc_idx] = statistics
             if solution is None:
-                nb -= 1
+                running.discard(proc_idx)
             else:
                 yield solution
 
@@ -107,18 +111,45 @@ class MultiprocessingSolver(Solver):
 
     def optimize(self, variable_idx: int, proc_func_name: str, comparison_func: Callable) -> Optional[NDArray]:
         solutions: Queue = Queue()
+        processes = []
         for proc_idx, solver in enumerate(self.solvers):
-            Process(target=(getattr(solver, proc_func_name)), args=(variable_idx, proc_idx, solutions)).start()
+            process = Process(target=(getattr(solver, proc_func_name)), args=(variable_idx, proc_idx, solutions))
+            process.start()
+            processes.append(process)
         best_solution = None
-        nb = len(self.solvers)
-        while nb > 0:
-            proc_idx, solution, statistics = solutions.get()
+        running = set(range(len(self.solvers)))
+        while len(running) > 0:
+            proc_idx, solution, statistics = get_message(solutions, processes, running)
             self.statistics[proc_idx] = statistics
             if solution is None:
-                nb -= 1
+                running.discard(proc_idx)
             elif best_solution is None or comparison_func(solution[variable_idx], best_solution[variable_idx]):
                 best_solution = solution
         return best_solution
+
+
+def get_message(solutions: Queue, processes: List[Any], running: Any, poll_s: float = 0.1) -> Any:
+    """
+    Gets the next message from the workers.
+    :param solutions: the queue of messages
+    :param processes: the worker processes
+    :param running: the indices of the workers which have not announced completion
+    :param poll_s: the polling period in seconds
+    :return: the message
+    :raises RuntimeError: if a worker terminated without announcing completion and nothing is left to read
+    """
+    while True:
+        try:
+            return solutions.get(timeout=poll_s)
+        except queue.Empty:
+            dead = [proc_idx for proc_idx in running if not processes[proc_idx].is_alive()]
+            if len(dead) > 0:
+                try:
+                    return solutions.get(timeout=poll_s)  # what a finished worker flushed before exiting
+                except queue.Empty:
+                    for process in processes:
+                        process.terminate()
+                    raise RuntimeError(f"worker processes {dead} terminated before completion")
 
 
 def sum_stats(stats: List[Any], index: int) -> int:
